@@ -2,7 +2,7 @@
    apart; weighted random choice; unused-seed search.
    Statements only; every proof is `exact <lemma>`. *)
 From Coq Require Import ZArith List Bool Lia Permutation Sorted QArith.
-From Sky Require Import Result PyList Num M_Random S_Random P_Random P_RandomChoice.
+From Sky Require Import Result PyList Num M_Random S_Random P_Random P_RandomChoice P_RandomOrder.
 Import ListNotations.
 Open Scope Z_scope.
 
@@ -198,8 +198,24 @@ Theorem C08_workers_prefix : forall (rng val : Type)
 Proof. exact worker_seeds_prefix. Qed.
 Print Assumptions C08_workers_prefix.
 
+(* ---- parallelize: same seed, same ncpu => the same result list for every
+   order in which the worker processes deliver their result records ---- *)
+Theorem C08_assembly_order : forall (A : Type) (res0 : list A) (arr1 arr2 : list (Z * list A)),
+  Permutation arr1 arr2 ->
+  NoDup (map fst arr1) ->
+  (forall pid, In pid (map fst arr1) <-> 1 <= pid <= Z.of_nat (length arr1)) ->
+  exists out, assemble (collect res0 arr1) = Ok out /\ assemble (collect res0 arr2) = Ok out.
+Proof. exact (@assemble_order_independent). Qed.
+Print Assumptions C08_assembly_order.
+
 (* ------------------------------------------------------------------ *)
 (* non-vacuity *)
+Example C08_assembly_example :
+  assemble (collect [10; 11] [(2, [30]); (1, [20; 21]); (3, [])]) = Ok [10; 11; 20; 21; 30]
+  /\ assemble (collect [10; 11] [(1, [20; 21]); (3, []); (2, [30])]) = Ok [10; 11; 20; 21; 30]
+  /\ NoDup (map fst [(2, [30]); (1, [20; 21]); (3, @nil Z)]).
+Proof. repeat split; try (vm_compute; reflexivity). repeat constructor; cbn; intuition lia. Qed.
+
 Example C08_seed_examples :
   extend_seed 1 [0; 1] = Ok 2 /\ extend_seed 0 [0; 1] = Ok 2
   /\ extend_seed 0 [3; 0; 1; 2; 5; 1] = Ok 4 /\ extend_seed 7 [0; 1] = Ok 7
